@@ -1,10 +1,10 @@
 (** Executable model of [NaiveTime] (src/naive/time/mod.rs) and of the [Timelike] default methods it
     inherits (src/traits.rs: hour12), in the trapping-integer monad of Base.Int.  Mirrors the Rust
     line by line; the numerals are the literals of the Rust functions (the file defines no named
-    constants).  Durations are the [td] of Model/C06.v.  Shared by every property that needs times
+    constants).  Durations are the [td] of Model/TimeDelta.v.  Shared by every property that needs times
     of day.  No proofs here. *)
 From Coq Require Import ZArith List Bool String.
-From V Require Import Base.Int Base.IO Gen.TimeDelta Model.C06.
+From V Require Import Base.Int Base.IO Gen.TimeDelta Model.TimeDelta.
 Import ListNotations.
 Open Scope Z_scope.
 
@@ -182,9 +182,9 @@ Definition op_sub_td (t : ntime) (rhs : td) : R ntime := rmap fst (overflowing_s
 
 (* the reduction of a core::time::Duration (as_secs : u64, subsec_nanos : u32 < 10^9) used by
    Add<Duration> and Sub<Duration> *)
+Definition STD_MOD : Z := Eval compute in 2 * 24 * 60 * 60.   (* the constant expression 2 * 24 * 60 * 60 *)
 Definition std_reduce (dsecs dnanos : Z) : R td :=
-  let* m := mul_u64 2 24 in let* m := mul_u64 m 60 in let* m := mul_u64 m 60 in
-  let* secs := rem_u64 dsecs m in
+  let* secs := rem_u64 dsecs STD_MOD in
   unwrap (td_new (as_i64 secs) dnanos).
 (* impl Add<Duration> for NaiveTime *)
 Definition op_add_std (t : ntime) (dsecs dnanos : Z) : R ntime :=
